@@ -22,6 +22,12 @@
        over the merged state diff).
    TLC checks (2) = (1); the replayer (harness/engines/rpc2) checks the real stack against both.
 
+   What the code shows of a pre-confirmed block (learnt by replaying, and what the v0.9 / v0.10
+   PRE_CONFIRMED_* schemas say): block_number, NO block_hash, NO parent_hash, NO status field (the
+   receipts inside carry finality PRE_CONFIRMED), state update without block_hash / new_root
+   (v0.9: old_root 0x0, v0.10: no old_root); v0.8's `pending` is always an empty block on the head
+   (parent_hash = head, no number) and v0.8 never looks into the pre-confirmed storage.
+
    One deviation of the code from the C08 reading of l1_accepted ("min(L1 head, height)") is a
    switch (FALSE = the code as it is, TRUE = repaired):
      FixL1EventsClamp   getEvents takes the raw L1 head number for from_block / to_block =
@@ -101,9 +107,8 @@ DiffOn(st, n, v) ==
   IN [declared0 |-> decl0, declared1 |-> decl1, deployed |-> dep, replaced |-> repl,
       storage |-> stor, nonces |-> nonces]
 
-(* Overlaying a diff on a state.  A deployment makes a FRESH contract (nonce 0, storage 0): on a
-   consistent chain that is vacuous, for a pre-confirmed block overlaid on a base it was not built on
-   it is what "overlay" means (and what core/pending.State does). *)
+(* Applying a block's diff to the state below it (canonical chain; the overlay of pre-confirmed
+   blocks is defined separately below, DOver..).  A deployment makes a fresh contract. *)
 ApplyDiff(st, d) ==
   LET dep(c) == \E x \in d.deployed : x[1] = c IN
   [class |-> [c \in Contracts |->
